@@ -304,9 +304,12 @@ func genArgs(rt *rapid.T, c Case) []string {
 	val := 100
 	value := func() string {
 		val++
-		switch rapid.IntRange(0, 11).Draw(rt, "valkind") {
+		switch rapid.IntRange(0, 13).Draw(rt, "valkind") {
 		case 0:
 			return "s" + strconv.Itoa(val)
+		case 12, 13:
+			// an explicit nil (or the empty list, or t): a supplied argument, however false, is not an absent one
+			return rapid.SampledFrom([]string{"nil", "nil", "nil", "()", "t"}).Draw(rt, "falsy")
 		case 1:
 			// a keyword as a plain value: a declared key, the name of another parameter, or a foreign one
 			cand := []string{":zz"}
@@ -473,7 +476,8 @@ func gridShapes(all bool, yield func(Case) bool) {
 }
 
 // gridArgs enumerates the argument vectors of one shape: every positional count from 0 to required+optional+2,
-// followed by each keyword tail of a fixed family (none, each key alone, all keys in order, all keys reversed,
+// (all integers; the last one nil; all nil) followed by each keyword tail of a fixed family (none, each key alone with
+// an integer and with nil as value, all keys in order, all keys reversed,
 // a duplicated key, an unknown key, a key without value); at most 8 arguments.
 func gridArgs(c Case, yield func(Case) bool) bool {
 	var tails [][]string
@@ -481,7 +485,7 @@ func gridArgs(c Case, yield func(Case) bool) bool {
 	if nk := len(c.Key); nk > 0 {
 		var fwd, rev []string
 		for i, p := range c.Key {
-			tails = append(tails, []string{":" + p.Name, strconv.Itoa(200 + i)})
+			tails = append(tails, []string{":" + p.Name, strconv.Itoa(200 + i)}, []string{":" + p.Name, "nil"})
 			fwd = append(fwd, ":"+p.Name, strconv.Itoa(200+i))
 			rev = append([]string{":" + p.Name, strconv.Itoa(200 + i)}, rev...)
 		}
@@ -511,6 +515,25 @@ func gridArgs(c Case, yield func(Case) bool) bool {
 			if !yield(cc) {
 				return false
 			}
+			if npos > 0 {
+				// the same with an explicit nil as last positional argument (the last required, an optional, the
+				// first of the rest, or one too many), and with nil for all of them
+				for _, all := range []bool{false, true} {
+					nc := c
+					nc.Args = append([]string{}, cc.Args...)
+					for i := 0; i < npos; i++ {
+						if all || i == npos-1 {
+							nc.Args[i] = "nil"
+						}
+					}
+					if all && npos == 1 {
+						nc.Args[0] = "()"
+					}
+					if !yield(nc) {
+						return false
+					}
+				}
+			}
 		}
 	}
 	return true
@@ -525,7 +548,7 @@ func rulesDo() {
 	h.Rule("A (user functions): lambda list shape (0-3 required x 0-2 &optional x &rest x 0-3 &key x 0-2 &aux; each default absent | literal | form | " +
 		"name of an earlier parameter; names from a pool of 11, one of them a global variable; each parameter with probability 1/8 also bound by a let around definition and call) " +
 		"x argument vector of length 0-8 (3/4 structured: positional count inside, below or above the range, then a permutation of a subset of the keys, optionally with an unknown key " +
-		"(also one named like another parameter), a repeated key, a missing value or a non-keyword; 1/4 free draws of integers, symbols, declared and foreign keywords). Every case is called " +
+		"(also one named like another parameter), a repeated key, a missing value or a non-keyword; 1/4 free draws of integers, symbols, declared and foreign keywords; one value in seven is an explicit nil, () or t). Every case is called " +
 		"6+n ways: defun+call, funcall 'name, funcall #'name, apply 'name, lambda+funcall, lambda+apply with the list split at every point. Oracle: reference binder written from CLHS 3.4.1 " +
 		"working on the text of the case: exact list of parameter values, or 'must be rejected before the body runs' (vt:mark in the body). Grid: every shape (thorough: every default pattern) x " +
 		"positional count 0..required+optional+2 x a fixed family of keyword tails. Non-trivial A: at least 2 lambda list sections and the call uses a default, supplies keys out of " +
@@ -536,7 +559,7 @@ func rulesDo() {
 		"call of the name are defined before the name (forward reference, optionally called once before it exists) or after its first definition; after every definition 3-4 argument vectors " +
 		"(drawn for each of the lambda lists) are passed through 5 call forms (direct, funcall 'name, funcall #'name, apply 'name, the compiled caller) in a rotated order; the reference binder is " +
 		"applied to the lambda list current at the call and the body marks the index of its definition. Grid: 132 ordered pairs of {0-2 required x 0-1 optional x 0-1 key} x 3 caller modes x 2 " +
-		"rotations x 7 vectors. Non-trivial R: a redefinition changes the number of required parameters and some vector is valid under one list and must be rejected under the other. " +
+		"rotations x 12 vectors (5 with an explicit nil). Non-trivial R: a redefinition changes the number of required parameters and some vector is valid under one list and must be rejected under the other. " +
 		"Distinct by the JSON of the case.")
 	h.Assume("the reference binder (harness/c04/binder_test.go, about 150 lines, independent of slip)")
 	h.Assume("vt:mark (Go side trace) shows whether the body ran; results are compared through internal/sx")
